@@ -4,6 +4,7 @@ constructed cells — versus the lookup-only walk `lookupShardAccount` of hashma
 -/
 import TonVerif.Model.Proof
 import TonVerif.Proofs.Hashmap
+import TonVerif.Proofs.Prune
 
 namespace TonVerif.Proofs.Locate
 open TonVerif TonVerif.Model TonVerif.Model.Hashmap TonVerif.Proofs.Hashmap
@@ -170,5 +171,313 @@ mutual
             exact ⟨c0, c1, more, true, k', rfl, by rw [hk]; simp, hl, by simpa using hlk⟩
       · cases h
 end
+
+theorem prefix_fork_absurd {pfx k : Bits} (h1 : pfx ++ [false] <+: k) (h2 : pfx ++ [true] <+: k) : False := by
+  obtain ⟨t1, e1⟩ := h1
+  obtain ⟨t2, e2⟩ := h2
+  rw [← e2] at e1
+  simp only [List.append_assoc, List.append_cancel_left_eq, List.cons_append, List.nil_append, List.cons.injEq] at e1
+  exact absurd e1.1 (by decide)
+
+mutual
+  /-- the keys a parse returns all extend the prefix handed in and are pairwise different -/
+  theorem parseAugP_keys {X : Type} (decY : PSlice → Option PSlice) (decX : PSlice → Option X) :
+      ∀ (c : PCell) (keyLen : Int) (pfx : Bits) (kv : List (Bits × X)),
+        parseAugP decY decX c keyLen pfx = some kv → (∀ q ∈ kv, pfx <+: q.1) ∧ (kv.map Prod.fst).Nodup
+    | .mk info refs, keyLen, pfx, kv, h => by
+      rw [parseAugP] at h
+      split at h
+      · cases h; simp
+      · split at h
+        · cases h
+        · rename_i l s rest hd
+          split at h
+          · split at h
+            · cases h
+            · split at h
+              · cases h
+              · cases h; simp
+          · obtain ⟨h1, h2⟩ := parseAugForkP_keys decY decX refs rest _ (pfx ++ s) kv h
+            exact ⟨fun q hq => (List.prefix_append pfx s).trans (h1 q hq), h2⟩
+  theorem parseAugForkP_keys {X : Type} (decY : PSlice → Option PSlice) (decX : PSlice → Option X) :
+      ∀ (refs : List PCell) (rest0 : Bits) (m : Int) (pfx : Bits) (kv : List (Bits × X)),
+        parseAugForkP decY decX refs rest0 m pfx = some kv → (∀ q ∈ kv, pfx <+: q.1) ∧ (kv.map Prod.fst).Nodup
+    | [], rest0, m, pfx, kv, h => by simp [parseAugForkP] at h
+    | [_], rest0, m, pfx, kv, h => by simp [parseAugForkP] at h
+    | c0 :: c1 :: more, rest0, m, pfx, kv, h => by
+      rw [parseAugForkP] at h
+      split at h
+      · rename_i a b ha hb
+        split at h
+        · cases h
+        · cases h
+          obtain ⟨pa, na⟩ := parseAugP_keys decY decX c0 m _ a ha
+          obtain ⟨pb, nb⟩ := parseAugP_keys decY decX c1 m _ b hb
+          refine ⟨?_, ?_⟩
+          · intro q hq
+            rcases List.mem_append.1 hq with hq | hq
+            · exact (List.prefix_append pfx [false]).trans (pa q hq)
+            · exact (List.prefix_append pfx [true]).trans (pb q hq)
+          · rw [List.map_append, List.nodup_append]
+            refine ⟨na, nb, ?_⟩
+            intro x hx y hy hxy
+            obtain ⟨qa, hqa, rfl⟩ := List.mem_map.1 hx
+            obtain ⟨qb, hqb, rfl⟩ := List.mem_map.1 hy
+            have h1 := pa qa hqa
+            have h2 := pb qb hqb
+            rw [← hxy] at h2
+            exact prefix_fork_absurd h1 h2
+      · cases h
+end
+
+/-! ### `int(i, 2)` keys and the dict lookup -/
+
+theorem natOfBits_inj : ∀ (a b : Bits), a.length = b.length → natOfBits a = natOfBits b → a = b
+  | [], [], _, _ => rfl
+  | [], _ :: _, h, _ => by simp at h
+  | _ :: _, [], h, _ => by simp at h
+  | x :: t, y :: u, hl, hv => by
+    simp only [List.length_cons, Nat.add_right_cancel_iff] at hl
+    rw [natOfBits_cons, natOfBits_cons, hl] at hv
+    have h1 := natOfBits_lt t
+    have h2 := natOfBits_lt u
+    rw [hl] at h1
+    have hp : 0 < 2 ^ u.length := Nat.pow_pos (by decide)
+    have hxy : x = y := by
+      cases x <;> cases y <;> simp at hv ⊢ <;> omega
+    subst hxy
+    have : natOfBits t = natOfBits u := by omega
+    rw [natOfBits_inj t u hl this]
+
+theorem foldl_dictSet_get {V : Type} (k : Nat) (x : V) : ∀ (kv : List (Bits × V)) (acc : Dict V),
+    dictGet k (kv.foldl (fun d p => dictSet (natOfBits p.1) p.2 d) acc) = some x →
+    (∃ key, (key, x) ∈ kv ∧ natOfBits key = k) ∨ dictGet k acc = some x
+  | [], acc, h => Or.inr h
+  | p :: kv, acc, h => by
+    rw [List.foldl_cons] at h
+    rcases foldl_dictSet_get k x kv _ h with ⟨key, hm, hk⟩ | h'
+    · exact Or.inl ⟨key, List.mem_cons_of_mem _ hm, hk⟩
+    · rw [dictGet_dictSet] at h'
+      split at h'
+      · rename_i e
+        simp only [Option.some.injEq] at h'
+        exact Or.inl ⟨p.1, by rw [← h']; simp, e.symm⟩
+      · exact Or.inr h'
+
+/-- an entry of the re-keyed dict comes from a parsed entry with that integer key -/
+theorem intKeys_get {V : Type} (kv : List (Bits × V)) (k : Nat) (x : V) (h : dictGet k (intKeys kv) = some x) :
+    ∃ key, (key, x) ∈ kv ∧ natOfBits key = k := by
+  rcases foldl_dictSet_get k x kv [] h with h | h
+  · exact h
+  · simp [dictGet] at h
+
+theorem foldl_dictSet_other {V : Type} (k : Nat) : ∀ (kv : List (Bits × V)) (acc : Dict V),
+    (∀ p ∈ kv, natOfBits p.1 ≠ k) →
+    dictGet k (kv.foldl (fun d p => dictSet (natOfBits p.1) p.2 d) acc) = dictGet k acc
+  | [], acc, _ => rfl
+  | p :: kv, acc, h => by
+    rw [List.foldl_cons, foldl_dictSet_other k kv _ (fun q hq => h q (List.mem_cons_of_mem _ hq)), dictGet_dictSet]
+    have := h p (by simp)
+    rw [if_neg (fun e => this e.symm)]
+
+theorem foldl_dictSet_mem {V : Type} (key : Bits) (x : V) : ∀ (kv : List (Bits × V)) (acc : Dict V),
+    (kv.map (fun p => natOfBits p.1)).Nodup → (key, x) ∈ kv →
+    dictGet (natOfBits key) (kv.foldl (fun d p => dictSet (natOfBits p.1) p.2 d) acc) = some x
+  | [], acc, _, h => by simp at h
+  | p :: kv, acc, hn, h => by
+    rw [List.map_cons, List.nodup_cons] at hn
+    rw [List.foldl_cons]
+    rcases List.mem_cons.1 h with h | h
+    · subst h
+      rw [foldl_dictSet_other]
+      · rw [dictGet_dictSet]; simp
+      · intro q hq e
+        exact hn.1 (List.mem_map.2 ⟨q, hq, e⟩)
+    · exact foldl_dictSet_mem key x kv _ hn.2 h
+
+/-- a parsed entry is found under its integer key when the keys are pairwise different and equally long -/
+theorem intKeys_mem {V : Type} (kv : List (Bits × V)) (n : Nat) (hl : ∀ q ∈ kv, q.1.length = n)
+    (hn : (kv.map Prod.fst).Nodup) (key : Bits) (x : V) (h : (key, x) ∈ kv) :
+    dictGet (natOfBits key) (intKeys kv) = some x := by
+  apply foldl_dictSet_mem key x kv [] _ h
+  have : kv.map (fun p => natOfBits p.1) = (kv.map Prod.fst).map natOfBits := by simp [List.map_map, Function.comp_def]
+  rw [this]
+  apply nodup_map_on natOfBits _ _ hn
+  intro a ha b hb e
+  obtain ⟨qa, hqa, rfl⟩ := List.mem_map.1 ha
+  obtain ⟨qb, hqb, rfl⟩ := List.mem_map.1 hb
+  exact natOfBits_inj _ _ (by rw [hl qa hqa, hl qb hqb]) e
+
+theorem foldl_be_bits : ∀ (bs : Bytes), Bytes.WF bs → ∀ acc : Nat,
+    bs.foldl (fun a b => a * 256 + b) acc = acc * 2 ^ (8 * bs.length) + natOfBits (bytesToBits bs)
+  | [], _, acc => by simp [bytesToBits, natOfBits_nil]
+  | b :: t, hw, acc => by
+    have hb : b < 256 := hw b (by simp)
+    have ht : Bytes.WF t := fun x hx => hw x (by simp [hx])
+    rw [List.foldl_cons, foldl_be_bits t ht, Prune.bytesToBits_cons, natOfBits_append, Prune.length_bytesToBits]
+    have : natOfBits (byteToBits b) = b := natOfBits_natToBits 8 b (by omega)
+    have e : 2 ^ (8 * (t.length + 1)) = 2 ^ (8 * t.length) * 256 := by rw [Nat.mul_succ, Nat.pow_add]
+    rw [this, List.length_cons, e]
+    ring
+
+/-- `int.from_bytes(addr, 'big')` is the number whose `8·|addr|` binary digits are `bytesToBits addr` -/
+theorem natOfBE_bits (bs : Bytes) (hw : Bytes.WF bs) : natOfBE bs = natOfBits (bytesToBits bs) := by
+  unfold natOfBE
+  rw [foldl_be_bits bs hw 0]; simp
+
+/-! ### the value readers -/
+
+/-- `DepthBalanceInfo.deserialize` consumes exactly what block.tlb says a `DepthBalanceInfo` occupies -/
+theorem readDepthBalance_skip {rest : Bits} {refs : List PCell} {sl : PSlice} (h : readDepthBalance (rest, refs) = some sl) :
+    ∃ k, skipDepthBalance rest = some (sl.1, k) ∧ sl.2 = refs.drop k := by
+  unfold readDepthBalance at h
+  split at h
+  · cases h
+  · rename_i hl
+    unfold readCurrencyCollection at h
+    simp only at h hl
+    unfold skipDepthBalance
+    rw [if_neg hl]
+    split at h
+    · cases h
+    · rename_i r hr
+      unfold readExtraCurrencies at h
+      simp only at h
+      split at h
+      · cases h
+      · cases h; exact ⟨0, rfl, rfl⟩
+      · split at h
+        · cases h
+        · rename_i r' _ c more
+          have : sl = (r', more) := by
+            split at h
+            · exact (Option.some.inj h).symm
+            · split at h
+              · cases h
+              · split at h
+                · exact (Option.some.inj h).symm
+                · cases h
+          subst this
+          exact ⟨1, rfl, by simp⟩
+
+/-- `ShardAccount.deserialize(...).cell[0]` is the first reference left after the extra, and 320 value bits are there -/
+theorem readShardAccount_head {O : Opaque} {sl : PSlice} {acc : PCell} (h : readShardAccount O sl = some acc) :
+    (∃ t, sl.2 = acc :: t) ∧ 320 ≤ sl.1.length := by
+  unfold readShardAccount at h
+  split at h
+  · cases h
+  · rename_i a t hs
+    split at h
+    · cases h
+    · split at h
+      · cases h
+      · split at h
+        · cases h
+        · cases h
+          exact ⟨⟨t, hs⟩, by omega⟩
+
+/-! ### `locateAccount` finds what the lookup of block.tlb / hashmap.tlb finds -/
+
+/-- what a successful `ShardAccounts.deserialize(...)[0]` says about the accounts cell -/
+theorem loadShardAccounts_some {O : Opaque} {accs : PCell} {d : Dict PCell} (h : loadShardAccounts O accs = some d) :
+    accs.info.kind = -1 ∧ ∃ rest root more kv, accs.info.bits = true :: rest ∧ accs.refs = root :: more ∧
+      root.info.kind = -1 ∧ parseAugP readDepthBalance (readShardAccount O) root 256 [] = some kv ∧
+      (∃ sl, readDepthBalance (rest, more) = some sl) ∧ d = intKeys kv := by
+  unfold loadShardAccounts at h
+  split at h
+  · cases h
+  · rename_i hk
+    refine ⟨by simpa using hk, ?_⟩
+    split at h
+    · cases h
+    · cases h
+    · rename_i rest hb
+      split at h
+      · cases h
+      · rename_i root more hr
+        split at h
+        · cases h
+        · rename_i hrk
+          split at h
+          · cases h
+          · rename_i kv hp
+            split at h
+            · cases h
+            · split at h
+              · cases h
+              · rename_i sl hy
+                cases h
+                exact ⟨rest, root, more, kv, hb, hr, by simpa using hrk, hp, ⟨sl, hy⟩, rfl⟩
+
+/-- what a successful `locateAccount` says: the state cell is an ordinary cell with the `shard_state` tag and at
+least 361 bits, its second reference passes `ShardAccounts.deserialize`, and the account cell is the dict entry -/
+theorem locateAccount_some {O : Opaque} {st : PCell} {addr : Bytes} {acc : PCell} (h : locateAccount O st addr = some acc) :
+    st.info.kind = -1 ∧ 361 ≤ st.info.bits.length ∧ st.info.bits.take 32 = shardStateTag ∧
+    ∃ omq accs rest d, st.refs = omq :: accs :: rest ∧ loadShardAccounts O accs = some d ∧
+      dictGet (natOfBE addr) d = some acc := by
+  unfold locateAccount at h
+  simp only at h
+  split at h
+  · cases h
+  · rename_i hk
+    split at h
+    · cases h
+    · rename_i hlen
+      split at h
+      · cases h
+      · rename_i htag
+        split at h
+        · cases h
+        · split at h
+          · rename_i omq accs rest hrefs
+            split at h
+            · cases h
+            · rename_i d hd
+              refine ⟨by simpa using hk, by omega, by simpa using htag, omq, accs, rest, d, hrefs, hd, ?_⟩
+              split at h
+              · cases h
+              · split at h
+                · cases h
+                · split at h
+                  · cases h
+                  · exact h
+                  · split at h
+                    · cases h
+                    · split at h
+                      · exact h
+                      · cases h
+          · cases h
+
+theorem getElem?_of_drop {α : Type} {l : List α} {k : Nat} {a : α} {t : List α} (h : l.drop k = a :: t) : l[k]? = some a := by
+  have := List.getElem?_drop (xs := l) (i := k) (j := 0)
+  rw [h] at this
+  simpa using this.symm
+
+/-- LOCATE ⊆ LOOKUP.  Whatever `ShardStateUnsplit.deserialize(st).accounts[0][addr].cell[0]` returns is the cell the
+lookup-only reading of block.tlb designates: the `account:^Account` reference of the leaf that the dictionary walk
+along the 256 bits of `addr` reaches below `st[1][0]`. -/
+theorem locateAccount_lookup (O : Opaque) (st : PCell) (addr : Bytes) (acc : PCell) (hl : addr.length = 32)
+    (hw : Bytes.WF addr) (h : locateAccount O st addr = some acc) :
+    lookupShardAccount pcellView st (bytesToBits addr) = some acc := by
+  obtain ⟨hk, hlen, htag, omq, accs, rest, d, hrefs, hd, hget⟩ := locateAccount_some h
+  obtain ⟨hak, arest, root, more, kv, hab, har, hrk, hp, _, rfl⟩ := loadShardAccounts_some hd
+  obtain ⟨key, hmem, hkey⟩ := intKeys_get kv _ acc hget
+  obtain ⟨k', hk', hlen', hlk⟩ := parseAugP_lookup readDepthBalance (readShardAccount O) root 256 [] kv hp key acc hmem
+  simp only [List.nil_append] at hk'
+  subst hk'
+  have hkeq : key = bytesToBits addr := by
+    apply natOfBits_inj
+    · rw [hlen', Prune.length_bytesToBits, hl]
+    · rw [hkey, natOfBE_bits addr hw]
+  subst hkeq
+  obtain ⟨lrest, lrefs, sl, hlook, hy, hx⟩ := hlk 257 (by omega)
+  obtain ⟨k, hskip, hdrop⟩ := readDepthBalance_skip hy
+  obtain ⟨⟨t, hhead⟩, h320⟩ := readShardAccount_head hx
+  have hroot : accountsRoot pcellView st = some root := by
+    have h1 : ¬ st.info.bits.length < 361 := by omega
+    simp [accountsRoot, pcellView, hk, h1, htag, hrefs, hak, hab, har]
+  have hidx : lrefs[k]? = some acc := getElem?_of_drop (by rw [← hdrop, hhead])
+  have h2 : ¬ sl.1.length < 320 := by omega
+  simp [lookupShardAccount, hroot, hlook, hskip, h2, hidx]
 
 end TonVerif.Proofs.Locate
